@@ -395,3 +395,205 @@ def replay_calc_as(obligation=None, model=None, meta=None):
     if bad:
         return {'confirmed': True, 'inputs': bad, 'observed': bad.get('observed'), 'native_cmd': 'contracts/bounded_eig_ref.py'}
     return {'confirmed': False, 'tried': n}
+
+
+def sweep_rounds(pid):
+    """EIG.sweep, from its round loop on: in every round each listed parameter of each listed device receives its value of this round
+    THROUGH the owning model's set(name, device, 'v', value) -- the one entry point that also refreshes dae.Tf and the mass matrix when
+    the parameter is a time constant -- and only then the round's matrices are refreshed (TDS.init, TDS.itm_step), the state matrix is
+    rebuilt (calc_As) and its eigenvalues (calc_eig of that very matrix) are filed under the round number."""
+    from pyvc.symval import Mark, Coll, Obj, TColl
+    PS = z3.DeclareSort('Param')
+    ER = 'rounds.$e'
+
+    def zip_h(ex, st, args, kw, node):
+        ok = len(args) == 1 and isinstance(args[0], tuple) and args[0][0] == 'star' and args[0][1] is st.env['values']
+        ex.oblige(st, 'pre@call:rounds=zip(*values)', z3.BoolVal(bool(ok)), {})
+        n = fresh('n_rounds', I)
+        st.assume(n >= 0)
+        return Coll('rounds', n, None)
+
+    def getitem(ex, st, args, kw, node):
+        base, sl = args
+        if isinstance(base, Obj) and base.path == ER:
+            i = to_z3(ex.ev(sl, st))
+            return NR(st.content(st.load(ER + '.vals')).vals[i], False)
+        if isinstance(base, Mark) and base.kind == 'param.v':
+            return Opaque(fresh('param_value', z3.DeclareSort('Any')))
+        return NotImplemented
+
+    def setitem(ex, st, args, kw, node):
+        base, sl, value = args
+        if isinstance(base, Mark) and base.kind == 'param.v':
+            ex.oblige(st, 'pre@store:a-swept-parameter-is-written-through-Model.set(not-directly-into-param.v:dae.Tf-would-go-stale)', z3.BoolVal(False), {})
+            return None
+        if isinstance(base, Mark) and base.kind == 'results':
+            st.ghost['filed'] = st.ghost['filed'] + [(ex.ev(sl, st), value)]
+            return None
+        return NotImplemented
+
+    def attr_of_param(name):
+        def h(ex, st, base):
+            return Mark('param.' + name, base.term)
+        return h
+
+    def set_h(ex, st, args, kw, node):
+        base = args[0]
+        a = list(args[1:])
+        i = st.env.get('idx')
+        ok = isinstance(base, Mark) and base.kind == 'param.owner' and base.data[0].eq(st.env['param'].term) and len(a) == 4 and \
+            isinstance(a[0], Mark) and a[0].kind == 'param.name' and a[0].data[0].eq(st.env['param'].term) and a[2] == 'v' and not kw
+        ex.oblige(st, 'pre@call:owner.set(param.name,<device>,"v",<value>)', z3.BoolVal(bool(ok)), {})
+        if ok:
+            idxes = st.content(st.env['idxes'])
+            vals = st.content(st.load(ER + '.vals'))
+            dev = a[1].term if isinstance(a[1], Opaque) else to_z3(a[1])
+            ex.oblige(st, 'pre@call:owner.set:device=idxes[k],value=val[k]-for-the-k-th-parameter', z3.And(dev == idxes.arr[to_z3(i)], as_real(a[3]).val == vals.vals[to_z3(i)]), {})
+        st.ghost['sets'] = st.ghost['sets'] + 1
+        st.ghost['order'] = st.ghost['order'] + ['set']
+        return True
+
+    def rec(tag, ret=None):
+        def h(ex, st, args, kw, node):
+            st.ghost['order'] = st.ghost['order'] + [tag]
+            if tag == 'calc_eig':
+                ex.oblige(st, 'pre@call:calc_eig(self.As)', z3.BoolVal(bool(len(args) == 1 and isinstance(args[0], Opaque) and args[0].term.eq(st.load('self.As').term))), {})
+                mu = Opaque(fresh('mu', z3.DeclareSort('Any')))
+                st.ghost['mu'] = mu
+                return (mu, Opaque(fresh('N', z3.DeclareSort('Any'))))
+            if tag == 'calc_As':
+                st.store('self.As', Opaque(fresh('As', M.Mat)))
+            return ret
+        return h
+
+    def dict_h(ex, st, args, kw, node):
+        return Mark('entry', kw.get('mu'), kw.get('param_values'))
+
+    def reset_outer(v):
+        v.st.ghost['order'] = []
+        v.st.ghost['filed'] = []
+        v.st.ghost['in_round'] = True
+        return True
+
+    def reset_inner(v):
+        v.st.ghost['sets'] = 0
+        v.st.ghost['in_iter'] = True
+        return True
+
+    def inner(v):
+        if not v.st.ghost.get('in_iter'):
+            return True
+        return z3.BoolVal(v.st.ghost['sets'] == 1)
+
+    def outer(v):
+        if not v.st.ghost.get('in_round'):
+            return True
+        g = v.st.ghost
+        o = [x for x in g['order'] if x != 'set']
+        filed = g['filed']
+        ok = o == ['TDS.init', 'itm_step', 'calc_As', 'calc_eig'] and g['order'][-4:] == o and len(filed) == 1 and \
+            isinstance(filed[0][1], Mark) and filed[0][1].kind == 'entry' and filed[0][1].data[0] is g.get('mu')
+        if not ok:
+            return z3.BoolVal(False)
+        return to_z3(filed[0][0]) == to_z3(v.st.env['count'])
+    c = Contract(FE, 'EIG.sweep', pid=pid, params={'self': TObj(), 'params': TSeq(PS), 'idxes': TSeq(TStr.sort), 'values': TOpaque('Values')},
+                 schema={'self.As': M.MatT, 'rounds': TColl(), ER + '.vals': TArr()},
+                 ghost_init={'order': [], 'filed': [], 'sets': 0, 'mu': None},
+                 calls={'zip': zip_h, '__getitem__': getitem, '__setitem__': setitem, '<value>.set': set_h, 'self.system.TDS.init': rec('TDS.init'),
+                        'self.system.TDS.itm_step': rec('itm_step'), 'self.calc_As': rec('calc_As'), 'self.calc_eig': rec('calc_eig'), 'dict': dict_h},
+                 globals_={'zip': Func('zip'), 'dict': Func('dict')},
+                 loops={2: Loop(inv=[('round:parameters-set,then-init,step,state-matrix,eigenvalues-of-it-filed-under-the-round-number', outer)],
+                                assume=[('reset', reset_outer)], frame=['$count', '$val', '$idx', '$param', '$pos', '$mu', '$N', 'self.As', 'self.mu', 'self.N', ER + '.*',
+                                                                        'ghost:sets']),
+                        3: Loop(inv=[('each-listed-parameter-is-set-exactly-once-per-round', inner)], assume=[('reset', reset_inner)],
+                                frame=['$idx', '$param', '$pos'])},
+                 ensures=[], modifies=['self.As', 'self.mu', 'self.N'])
+    c.body_from = 'for count, val in enumerate(zip(*values))'
+    c.locals = {'positions': TSeq(I), 'results': Mark('results'), 'ret': False, 'param_names': TSeq(TStr.sort)}
+    c.properties = {}
+    c.star_ok = True
+    c.merge = False
+    c.check_bounds = False
+    c.value_attrs = {'v': attr_of_param('v'), 'owner': attr_of_param('owner'), 'name': attr_of_param('name')}
+
+    def pre_state(st):
+        st.ghost.pop('in_iter', None)
+        st.ghost.pop('in_round', None)
+    c.pre_state = pre_state
+    return c
+
+
+def replay_sweep(obligation=None, model=None, meta=None):
+    """native: EIG.sweep over an inertia (a time constant, the documented example) and over an exciter gain on kundur_full without events;
+    the spectrum of every round must be the spectrum EIG.run reports on a fresh system in which the same value was set before the first
+    initialisation"""
+    import contextlib
+    import io
+    import logging
+    import numpy as np
+    import andes
+    logging.getLogger('andes').setLevel(logging.CRITICAL)
+    case = andes.get_case('kundur/kundur_full.xlsx')
+
+    def fresh_system():
+        ss = andes.load(case, default_config=True, no_output=True)
+        for tg in list(ss.Toggle.idx.v):
+            ss.Toggle.alter('u', tg, 0)
+        return ss
+
+    def spectrum(mu):
+        mu = np.array(mu).ravel()
+        return mu[np.lexsort((np.round(mu.imag, 6), np.round(mu.real, 6)))]
+    def distance(x, y):
+        a, b = spectrum(x), spectrum(y)
+        if a.shape != b.shape:
+            return float('inf'), 1.0
+        return max(float(np.min(np.abs(b - v))) for v in a), max(1.0, float(np.max(np.abs(b))))
+    n = 0
+    # (i) a time constant: the operating point does not move, so every round must equal a fresh system with that value
+    mdl, par, factors = 'GENROU', 'M', (1.0, 2.0, 4.0)
+    with contextlib.redirect_stdout(io.StringIO()), contextlib.redirect_stderr(io.StringIO()):
+        ss = fresh_system()
+        ss.PFlow.run()
+        ss.EIG.run()
+        m = ss.__dict__[mdl]
+        dev = m.idx.v[0]
+        base = float(m.get(par, dev, 'v'))
+        res = ss.EIG.sweep(m.__dict__[par], dev, [base * f for f in factors])
+    if not res or len(res) != len(factors):
+        return {'confirmed': True, 'inputs': {'case': 'kundur_full', 'sweep': '%s.%s of %r' % (mdl, par, dev)}, 'observed': 'sweep returned %r' % (res,),
+                'native_cmd': 'contracts/fn_eig.py replay_sweep'}
+    for k, f in enumerate(factors):
+        n += 1
+        with contextlib.redirect_stdout(io.StringIO()), contextlib.redirect_stderr(io.StringIO()):
+            ref = fresh_system()
+            rm = ref.__dict__[mdl]
+            rm.alter(par, dev, f * float(rm.get(par, dev, 'vin')))
+            ref.PFlow.run()
+            ref.EIG.run()
+        d, scale = distance(res[k]['mu'], ref.EIG.mu)
+        if d > 1e-5 * scale:
+            return {'confirmed': True, 'inputs': {'case': 'kundur_full (events disabled)', 'sweep': 'EIG.sweep(%s.%s, %r, base * %r)' % (mdl, par, dev, list(factors)), 'round': k},
+                    'observed': 'round %d (value %r): an eigenvalue is %.3e away from every eigenvalue of a fresh system with the same value' % (k, base * f, d),
+                    'native_cmd': 'contracts/fn_eig.py replay_sweep'}
+    # (ii) a gain: the round's spectrum must be that of the state matrix rebuilt from freshly evaluated Jacobians at the point the sweep left
+    with contextlib.redirect_stdout(io.StringIO()), contextlib.redirect_stderr(io.StringIO()):
+        ss = fresh_system()
+        ss.PFlow.run()
+        ss.EIG.run()
+        dev = ss.EXDC2.idx.v[0]
+        base = float(ss.EXDC2.get('KA', dev, 'v'))
+    for f in (2.5, 10.0):
+        n += 1
+        with contextlib.redirect_stdout(io.StringIO()), contextlib.redirect_stderr(io.StringIO()):
+            res = ss.EIG.sweep(ss.EXDC2.KA, dev, [base * f])
+            mu_round = np.array(res[0]['mu']).ravel()
+            ss.j_update(ss.exist.pflow_tds)                       # Jacobians of the current point, evaluated now
+            As = ss.EIG.calc_As()
+            mu_now, _ = ss.EIG.calc_eig(As)
+        d, scale = distance(mu_round, mu_now)
+        if d > 1e-6 * scale:
+            return {'confirmed': True, 'inputs': {'case': 'kundur_full (events disabled)', 'sweep': 'EIG.sweep(EXDC2.KA, %r, [%r])' % (dev, base * f)},
+                    'observed': 'the reported spectrum is %.3e away from the spectrum of the state matrix rebuilt from Jacobians evaluated at the same point' % d,
+                    'native_cmd': 'contracts/fn_eig.py replay_sweep'}
+    return {'confirmed': False, 'tried': n}
